@@ -191,7 +191,12 @@ func (i *Iterator) Next(ctx context.Context, span telem.TimeSpan) (ok bool) {
 
 	i.reset(i.view.End.SpanRange(span).BoundBy(i.bounds))
 
-	if i.view.Span().IsZero() || i.view.End.BeforeEq(i.internal.TimeRange().Start) {
+	// Reposition the domain cursor for the new view. It may be anywhere (or invalid)
+	// after a step in the other direction, a step whose view held no samples, or a
+	// step that walked off either end of the domains.
+	if i.view.Span().IsZero() ||
+		!i.internal.SeekGE(ctx, i.view.Start) ||
+		i.view.End.BeforeEq(i.internal.TimeRange().Start) {
 		return
 	}
 
@@ -232,6 +237,9 @@ func (i *Iterator) autoNext(ctx context.Context) bool {
 	}
 	i.view.End = endApprox.Lower
 	i.reset(i.view.BoundBy(i.bounds))
+	if i.view.Span().IsZero() || !i.internal.SeekGE(ctx, i.view.Start) {
+		return false
+	}
 
 	nRemaining := i.AutoChunkSize
 	for {
@@ -297,6 +305,9 @@ func (i *Iterator) autoPrev(ctx context.Context) bool {
 	}
 	i.view.Start = startApprox.Lower + 1
 	i.reset(i.view.BoundBy(i.bounds))
+	if i.view.Span().IsZero() || !i.internal.SeekLE(ctx, i.view.End-1) {
+		return false
+	}
 	nRemaining := i.AutoChunkSize
 	for {
 		if !i.internal.TimeRange().OverlapsWith(i.view) {
@@ -368,7 +379,9 @@ func (i *Iterator) Prev(ctx context.Context, span telem.TimeSpan) (ok bool) {
 
 	i.reset(i.view.Start.SpanRange(-1 * span).BoundBy(i.bounds))
 
-	if i.view.Span().IsZero() || i.view.Start.AfterEq(i.internal.TimeRange().End) {
+	if i.view.Span().IsZero() ||
+		!i.internal.SeekLE(ctx, i.view.End-1) ||
+		i.view.Start.AfterEq(i.internal.TimeRange().End) {
 		return
 	}
 
